@@ -2,7 +2,7 @@
 C04 statistics slice, lemmas part b: closed form of the folded statistics under exact arithmetic.
 `build parse vs` is what the adders leave after the value list `vs` (parse = the path's "is this string a number"):
 presence count, numeric values in order, min / max cells as folds of `cvMin` / `cvMax`, the sum as a fold of `addSum`.
-`foldQ exact vs = build (parseStd exact) vs` and `foldI exact vs = build (parseFast exact) vs` for EVERY list
+`foldQWith parse exact vs = build parse vs` and `foldIWith parse exact vs = build parse vs` for EVERY list and string rule
 (no overflow guard: the sum is still the code's own fold).  Core Lean only.
 -/
 import SigModel.Lemmas.C04Sa
@@ -173,76 +173,85 @@ theorem addNumI_build (parse : Str → Option Rat) (vs : List Val) (v : Val) (x 
       simp [addNumI, procNum, defaultNum, hnil, hn, hc, hp, cvMin, cvMax, sumCell]
     · simp [addNumI, procNum, hne, hn, hc, hp, cvMin, cvMax]
 
-theorem stepQ_build (vs : List Val) (v : Val) :
-    stepQ exact (build (parseStd exact) vs) v = build (parseStd exact) (vs ++ [v]) := by
+theorem stepQWith_build (parse : Str → Option Rat) (vs : List Val) (v : Val) :
+    stepQWith parse exact (build parse vs) v = build parse (vs ++ [v]) := by
   cases v with
   | absent =>
     by_cases h0 : present vs = 0
-    · simp [stepQ, build, h0, isPresent]
-    · simp [stepQ, build, h0, isPresent, numOf, cellOf, cvMin_invalid_right _ (minCell_notBackfill _ vs),
+    · simp [stepQWith, build, h0, isPresent]
+    · simp [stepQWith, build, h0, isPresent, numOf, cellOf, cvMin_invalid_right _ (minCell_notBackfill _ vs),
         cvMax_invalid_right _ (maxCell_notBackfill _ vs)]
   | int i => exact addNumQ_build _ vs (.int i) (.int i) rfl rfl rfl
   | flt q => exact addNumQ_build _ vs (.flt q) (.flt q) rfl rfl rfl
   | str s =>
-    cases hps : parseStd exact s with
+    cases hps : parse s with
     | some f =>
-      have hn : numOf (parseStd exact) (.str s) = some (.flt f) := by simp [numOf, hps]
-      have hc : cellOf (parseStd exact) (.str s) = (Num.flt f).toCV := by simp [cellOf, hps, Num.toCV]
+      have hn : numOf parse (.str s) = some (.flt f) := by simp [numOf, hps]
+      have hc : cellOf parse (.str s) = (Num.flt f).toCV := by simp [cellOf, hps, Num.toCV]
       rw [← addNumQ_build _ vs (.str s) (.flt f) hn hc rfl]
       by_cases h0 : present vs = 0
-      · simp [stepQ, addStrQ, hps, build, h0, addNumQ, newText, newNumeric, procNum]
-      · simp [stepQ, addStrQ, hps, build, h0]
+      · simp [stepQWith, addStrQWith, hps, build, h0, addNumQ, newText, newNumeric, procNum]
+      · simp [stepQWith, addStrQWith, hps, build, h0]
     | none =>
-      have hn : numOf (parseStd exact) (.str s) = none := by simp [numOf, hps]
-      have hc : cellOf (parseStd exact) (.str s) = .str s := by simp [cellOf, hps]
+      have hn : numOf parse (.str s) = none := by simp [numOf, hps]
+      have hc : cellOf parse (.str s) = .str s := by simp [cellOf, hps]
       by_cases h0 : present vs = 0
-      · obtain ⟨h1, h2, h3⟩ := of_present_zero (parseStd exact) vs h0
-        simp [stepQ, addStrQ, hps, build, h0, newText, procStr, isPresent, hn, hc, h1, h2, h3, cvMin, cvMax]
-      · simp [stepQ, addStrQ, hps, build, h0, procStr, isPresent, hn, hc, cvMin, cvMax]
+      · obtain ⟨h1, h2, h3⟩ := of_present_zero parse vs h0
+        simp [stepQWith, addStrQWith, hps, build, h0, newText, procStr, isPresent, hn, hc, h1, h2, h3, cvMin, cvMax]
+      · simp [stepQWith, addStrQWith, hps, build, h0, procStr, isPresent, hn, hc, cvMin, cvMax]
 
-theorem stepI_build (vs : List Val) (v : Val) :
-    stepI exact (build (parseFast exact) vs) v = build (parseFast exact) (vs ++ [v]) := by
+theorem stepIWith_build (parse : Str → Option Rat) (vs : List Val) (v : Val) :
+    stepIWith parse exact (build parse vs) v = build parse (vs ++ [v]) := by
   cases v with
   | absent =>
     by_cases h0 : present vs = 0
-    · simp [stepI, build, h0, isPresent]
-    · simp [stepI, build, h0, isPresent, numOf, cellOf, cvMin_invalid_right _ (minCell_notBackfill _ vs),
+    · simp [stepIWith, build, h0, isPresent]
+    · simp [stepIWith, build, h0, isPresent, numOf, cellOf, cvMin_invalid_right _ (minCell_notBackfill _ vs),
         cvMax_invalid_right _ (maxCell_notBackfill _ vs)]
   | int i => exact addNumI_build _ vs (.int i) (.int i) rfl rfl rfl
   | flt q => exact addNumI_build _ vs (.flt q) (.flt q) rfl rfl rfl
   | str s =>
-    cases hps : parseFast exact s with
+    cases hps : parse s with
     | some f =>
-      have hn : numOf (parseFast exact) (.str s) = some (.flt f) := by simp [numOf, hps]
-      have hc : cellOf (parseFast exact) (.str s) = (Num.flt f).toCV := by simp [cellOf, hps, Num.toCV]
+      have hn : numOf parse (.str s) = some (.flt f) := by simp [numOf, hps]
+      have hc : cellOf parse (.str s) = (Num.flt f).toCV := by simp [cellOf, hps, Num.toCV]
       rw [← addNumI_build _ vs (.str s) (.flt f) hn hc rfl]
       by_cases h0 : present vs = 0
-      · simp [stepI, addStrI, hps, build, h0, addNumI, newText, newNumeric, procNum]
-      · by_cases hne : (nums (parseFast exact) vs).isEmpty
-        · simp [stepI, addStrI, hps, build, h0, addNumI, hne]
-        · simp [stepI, addStrI, hps, build, h0, addNumI, hne]
+      · simp [stepIWith, addStrIWith, hps, build, h0, addNumI, newText, newNumeric, procNum]
+      · by_cases hne : (nums parse vs).isEmpty
+        · simp [stepIWith, addStrIWith, hps, build, h0, addNumI, hne]
+        · simp [stepIWith, addStrIWith, hps, build, h0, addNumI, hne]
     | none =>
-      have hn : numOf (parseFast exact) (.str s) = none := by simp [numOf, hps]
-      have hc : cellOf (parseFast exact) (.str s) = .str s := by simp [cellOf, hps]
+      have hn : numOf parse (.str s) = none := by simp [numOf, hps]
+      have hc : cellOf parse (.str s) = .str s := by simp [cellOf, hps]
       by_cases h0 : present vs = 0
-      · obtain ⟨h1, h2, h3⟩ := of_present_zero (parseFast exact) vs h0
-        simp [stepI, addStrI, hps, build, h0, newText, procStr, isPresent, hn, hc, h1, h2, h3, cvMin, cvMax]
-      · simp [stepI, addStrI, hps, build, h0, procStr, isPresent, hn, hc, cvMin, cvMax]
+      · obtain ⟨h1, h2, h3⟩ := of_present_zero parse vs h0
+        simp [stepIWith, addStrIWith, hps, build, h0, newText, procStr, isPresent, hn, hc, h1, h2, h3, cvMin, cvMax]
+      · simp [stepIWith, addStrIWith, hps, build, h0, procStr, isPresent, hn, hc, cvMin, cvMax]
 
-/-- closed form of the query-time statistics, every list -/
-theorem foldQ_eq_build (vs : List Val) : foldQ exact vs = build (parseStd exact) vs := by
+/-- closed form of the query-time adders with any string rule, every list -/
+theorem foldQWith_eq_build (parse : Str → Option Rat) (vs : List Val) : foldQWith parse exact vs = build parse vs := by
   induction vs using snocInd with
-  | nil => simp [foldQ, build]
+  | nil => simp [foldQWith, build]
   | append_singleton vs v ih =>
-    have : foldQ exact (vs ++ [v]) = stepQ exact (foldQ exact vs) v := by simp [foldQ, List.foldl_append]
-    rw [this, ih, stepQ_build]
+    have : foldQWith parse exact (vs ++ [v]) = stepQWith parse exact (foldQWith parse exact vs) v := by
+      simp [foldQWith, List.foldl_append]
+    rw [this, ih, stepQWith_build]
 
-/-- closed form of the ingest-time statistics, every list -/
-theorem foldI_eq_build (vs : List Val) : foldI exact vs = build (parseFast exact) vs := by
+/-- closed form of the ingest-time adders with any string rule, every list -/
+theorem foldIWith_eq_build (parse : Str → Option Rat) (vs : List Val) : foldIWith parse exact vs = build parse vs := by
   induction vs using snocInd with
-  | nil => simp [foldI, build]
+  | nil => simp [foldIWith, build]
   | append_singleton vs v ih =>
-    have : foldI exact (vs ++ [v]) = stepI exact (foldI exact vs) v := by simp [foldI, List.foldl_append]
-    rw [this, ih, stepI_build]
+    have : foldIWith parse exact (vs ++ [v]) = stepIWith parse exact (foldIWith parse exact vs) v := by
+      simp [foldIWith, List.foldl_append]
+    rw [this, ih, stepIWith_build]
+
+/-- the fixed code: both paths use FastParseFloat -/
+theorem foldQ_eq_build (vs : List Val) : foldQ exact vs = build (parseFast exact) vs := foldQWith_eq_build _ vs
+theorem foldI_eq_build (vs : List Val) : foldI exact vs = build (parseFast exact) vs := foldIWith_eq_build _ vs
+/-- before the fixes -/
+theorem foldQOld_eq_build (vs : List Val) : foldQOld exact vs = build (parseStd exact) vs := foldQWith_eq_build _ vs
+theorem foldIOld_eq_build (vs : List Val) : foldIOld exact vs = build (parseFastOld exact) vs := foldIWith_eq_build _ vs
 
 end SigModel.Stats
